@@ -2,6 +2,7 @@
 //!   frmc <ID> quick|thorough
 //!   frmc --replay <path>
 
+mod alloc;
 mod common;
 mod engine;
 mod expr_ir;
@@ -12,6 +13,9 @@ mod spaces;
 mod statemodel;
 
 use common::{Ctx, Tier};
+
+#[global_allocator]
+static GLOBAL: alloc::Counting = alloc::Counting;
 use std::time::Instant;
 
 fn main() {
@@ -31,6 +35,9 @@ fn main() {
         let re = fancy_regex::Regex::new(&args[2]).unwrap();
         println!("{:?}", engine::captures_at(&re, &args[3], 0));
         return;
+    }
+    if args.len() >= 6 && args[1] == "c06-worker" {
+        std::process::exit(props::c06::worker(&args[2..]));
     }
     if args.len() >= 2 && args[1] == "bench-sched" {
         props::c18::bench();
@@ -58,6 +65,7 @@ fn main() {
         "C05" => props::c05::run_c05(&cx),
         "C09" => props::c05::run_c09(&cx),
         "C07" => props::c07::run_c07(&cx),
+        "C06" => props::c06::run_c06(&cx),
         "C18" => props::c18::run_c18(&cx),
         "C20" => props::c20::run_c20(&cx),
         "C14" => props::c14::run_c14(&cx),
